@@ -80,6 +80,42 @@ def _trace_worker(args):
     return out
 
 
+def _wide_worker(args):
+    """Executions over the wide universe (name lengths, shared prefixes, ids chosen for their bytes)."""
+    from .. import c16_trace as T
+    kind, wid, ntraces, length, seed, tid0 = args
+    objs, scratch = _G["objs_wide"], _G["scratch"]
+    sc = os.path.join(scratch, f"wd-{kind}-{wid}")
+    os.makedirs(sc, exist_ok=True)
+    rng = random.Random(seed * 6007 + wid * 15485863 + {"disk": 1, "dict": 2, "reftable": 3}[kind])
+    out = []
+    for i in range(ntraces):
+        be = T.new_backend(kind, objs, T.WIDE_NAMES, sc)
+        rec = T.Recorder(be, objs, None, 1)
+        T.gen_wide(rng, rec, rng.randint(length // 2, length))
+        be.close()
+        out.append((T.to_json(tid0 + i, rec, T.WIDE_NAMES, T.WIDE_VALUES, objs, "wide"), _strip(rec)))
+    shutil.rmtree(sc, ignore_errors=True)
+    return out
+
+
+def _bulk_worker(args):
+    """One execution with `size` refs in one table, in a universe of `usize` names."""
+    from .. import c16_trace as T
+    kind, size, usize, seed, tid = args
+    objs, scratch = _G["objs_wide"], _G["scratch"]
+    sc = os.path.join(scratch, f"bk-{kind}-{size}-{usize}")
+    os.makedirs(sc, exist_ok=True)
+    names = T.bulk_names(usize)
+    be = T.new_backend(kind, objs, names, sc)
+    be.probe = sorted(set(names[:12] + names[::max(1, usize // 12)] + names[-4:]))
+    rec = T.Recorder(be, objs, None, 1)
+    T.gen_bulk(random.Random(seed + size), rec, size)
+    be.close()
+    shutil.rmtree(sc, ignore_errors=True)
+    return [(T.to_json(tid, rec, names, ["p%04d" % i for i in range(1200)], objs, f"bulk-{usize}"), _strip(rec))]
+
+
 class _RecView:
     """What describe() needs from a Recorder, picklable."""
 
@@ -213,6 +249,42 @@ def record_traces(ctx, nproc):
     return traces
 
 
+def record_wide(ctx, nproc):
+    """-> list of (label, traces): each list is validated by its own TLC run (one universe per run)."""
+    from .. import c16_trace as T
+    per = ctx.pick({"reftable": 36, "dict": 18, "disk": 18}, {"reftable": 300, "dict": 120, "disk": 120})
+    length = ctx.pick(24, 30)
+    jobs, tid = [], 100000
+    for kind, n in per.items():
+        nw = max(1, min(nproc // 2, n // 6))
+        share = -(-n // nw)
+        for w in range(nw):
+            jobs.append((kind, w, share, length, ctx.seed, tid))
+            tid += share
+    bulk = []
+    for usize in ctx.pick((100,), (100, 1000)):
+        for size in T.BULK_SIZES:
+            if size <= usize and (usize == 100 or size == 1000):
+                for kind in ("reftable", "dict"):
+                    tid += 1
+                    bulk.append((kind, size, usize, ctx.seed, tid))
+    with mp.get_context("fork").Pool(nproc) as pool:
+        wide = [x for ch in pool.map(_wide_worker, jobs, chunksize=1) for x in ch]
+        bulks = pool.map(_bulk_worker, bulk, chunksize=1)
+    out = [("wide universe", wide)]
+    for usize in ctx.pick((100,), (100, 1000)):
+        out.append((f"bulk universe of {usize} names", [x for job, ch in zip(bulk, bulks) if job[2] == usize for x in ch]))
+    for label, trs in out:
+        for obj, rv in trs:
+            rv.objs = _G["objs_wide"]
+            rv.be = _BeView(rv, _G["objs_wide"])
+    nev = sum(len(o["ev"]) for _, trs in out for o, _ in trs)
+    ctx.log(f"wide/bulk traces: {sum(len(t) for _, t in out)} executions, {nev} calls recorded")
+    ctx.cov["wide_traces"] = {"executions": {label: len(t) for label, t in out}, "calls": nev,
+                              "name_lengths": list(T.WIDE_LENGTHS), "bulk_sizes": [b[1] for b in bulk if b[0] == "reftable"]}
+    return out
+
+
 def submit_validation(ctx, pool_tlc, traces, nproc):
     from .. import c16_trace as T
     nb = max(1, min(ctx.pick(4, 8), len(traces) // 20))
@@ -244,6 +316,16 @@ def collect_validation(ctx, vfuts, traces):
 CONFIRMABLE = ("result", "state", "pack-visible", "reopen-visible", "peeled", "git-view")
 
 
+def _reexecute(rec, calls):
+    """Make the recorded calls again (refs[n]=v / del refs[n] versus the method call as recorded)."""
+    out = []
+    for c in calls:
+        rec.be.nstep = 1 if c.get("form") == "item" else 0
+        items = [(tuple(i["n"]), i["v"]) for i in c.get("items", ())] or None
+        out.append(rec.do(c["op"], tuple(c["n"]), c["old"], c["v"], tuple(c["t"]), items))
+    return out
+
+
 def report_findings(ctx):
     """Report what the replay and the traces found.  The containers are sequential and deterministic:
     a divergence that is not on the list of known findings is first re-executed from scratch (same
@@ -270,19 +352,21 @@ def report_findings(ctx):
             check.append((sig, what, obj))
     if not check:
         return
-    traces = []
+    objs_by = {"big": _G["objs_big"], "wide": _G["objs_wide"]}
+    by_tid, groups = {}, {}
     for tid, (sig, what, obj) in enumerate(check):
-        # all traces of one batch share a universe: re-run in the large one (it contains the small ones)
-        be = T.new_backend(obj["backend"], _G["objs_big"], T.BIG_NAMES, ctx.scratch)
-        gv = GitView(_G["objs_big"], ctx.scratch) if (_G["git"] and obj["backend"] == "disk") else None
-        rec = T.Recorder(be, _G["objs_big"], gv, 1)
-        for c in obj["calls"]:
-            be.nstep = 1 if c.get("form") == "item" else 0
-            rec.do(c["op"], tuple(c["n"]), c["old"], c["v"], tuple(c["t"]))
+        uni = obj.get("universe") or "big"       # (graph replay: the small universes are inside the big one)
+        names, values, objs, with_git = T.universe(uni, objs_by)
+        be = T.new_backend(obj["backend"], objs, names, ctx.scratch)
+        gv = GitView(objs, ctx.scratch) if (with_git and _G["git"] and obj["backend"] == "disk") else None
+        rec = T.Recorder(be, objs, gv, 1)
+        if uni.startswith("bulk"):
+            be.probe = sorted(set(names[:12] + names[::max(1, len(names) // 12)] + names[-4:]))
+        _reexecute(rec, obj["calls"])
         be.close()
-        traces.append((T.to_json(tid, rec, T.BIG_NAMES, T.BIG_VALUES, _G["objs_big"]), rec))
-    by_tid = {}
-    T.validate(ctx, traces, "confirmation of unlisted divergences", by_tid)
+        groups.setdefault(uni, []).append((T.to_json(tid, rec, names, values, objs, uni), rec))
+    for uni, traces in groups.items():
+        T.validate(ctx, traces, f"confirmation of unlisted divergences ({uni})", by_tid)
     unconfirmed = []
     for tid, (sig, what, obj) in enumerate(check):
         if sig in by_tid.get(tid, ()):
@@ -306,6 +390,8 @@ def setup(ctx):
     _G["scratch"] = ctx.scratch
     _G["objs"] = Objects(os.path.join(ctx.scratch, "objs2"), 2, use_git)
     _G["objs_big"] = Objects(os.path.join(ctx.scratch, "objs4"), 4, use_git)
+    from ..c16_backends import WideValues
+    _G["objs_wide"] = WideValues()
     if not use_git:
         ctx.assumptions.append("git not found: every comparison with C git skipped")
     return use_git
@@ -320,6 +406,11 @@ def run(ctx):
         name_futs = c16_refname.start_models(ctx, pool_tlc)
         traces = record_traces(ctx, nproc)                                 # meanwhile: real executions
         vfuts = submit_validation(ctx, pool_tlc, traces, nproc)
+        from .. import c16_trace as T
+        for label, trs in record_wide(ctx, nproc):
+            if trs:
+                vfuts.append(pool_tlc.submit(T.validate, ctx, trs, label))
+                traces = traces + trs
         rec_names = c16_refname.record(ctx, pool_tlc, nproc, _G["git"])
         res = futs["graph"].result()
         ctx.add_tlc(f"{graph_cfg} (state graph replayed on the real containers)", res)
@@ -360,20 +451,19 @@ def replay(ctx, path):
     if obj.get("kind") == "refname":
         return c16_refname.replay(ctx, obj)
     setup(ctx)
-    names = [tuple(n) for n in obj["names"]]
-    values = obj.get("values") or ["v1", "v2"]
-    objs = _G["objs_big"] if len(values) > 2 else _G["objs"]
+    uni = obj.get("universe") or "big"
+    names, values, objs, with_git = T.universe(uni, {"big": _G["objs_big"], "wide": _G["objs_wide"]})
     from ..c16_backends import GitView
     be = T.new_backend(obj["backend"], objs, names, ctx.scratch)
-    gv = GitView(objs, ctx.scratch) if (_G["git"] and obj["backend"] == "disk") else None
+    if uni.startswith("bulk"):
+        be.probe = sorted(set(names[:12] + names[::max(1, len(names) // 12)] + names[-4:]))
+    gv = GitView(objs, ctx.scratch) if (with_git and _G["git"] and obj["backend"] == "disk") else None
     rec = T.Recorder(be, objs, gv, 1)
-    for c in obj["calls"]:
-        be.nstep = 1 if c.get("form") == "item" else 0      # reproduce refs[n]=v / del refs[n] versus the method call
-        e = rec.do(c["op"], tuple(c["n"]), c["old"], c["v"], tuple(c["t"]))
-        print(f"  {c['call']:55s} -> {e['got']:24s} refs now: {_fmt(e)}")
+    for c, e in zip(obj["calls"], _reexecute(rec, obj["calls"])):
+        print(f"  {c['call'][:70]:70s} -> {e['got']:24s} refs now: {str(_fmt(e))[:300]}")
     be.close()
     ctx.known = []
-    findings, drift, clean = T.validate(ctx, [(T.to_json(1, rec, names, values, objs), rec)], "replay")
+    findings, drift, clean = T.validate(ctx, [(T.to_json(1, rec, names, values, objs, uni), rec)], "replay")
     want = obj.get("signature")
     seen, hit = set(), False
     for f in findings:
